@@ -10,6 +10,18 @@ NOTES = ("Runtime monitoring family. ./check <id> quick|thorough rebuilds the ha
          "or too few observations), never a verdict.")
 NOT_APPLICABLE = {}
 CHECKS = {
+    "C11": {
+        "level": "exploration",
+        "technique": "lockstep differential monitor (FFI-driven instance vs Rust-API-driven instance) with per-call flag/bytes/verdict and full-observation comparison, run natively and under AddressSanitizer (valgrind memcheck in thorough); process death = violation",
+        "text": "Generated sequences of all exported FFI functions (in/out-of-range indices, odd buffers, batch and sequential batch updates, metadata, flush, set_tree, hashing, key generation, valid/invalid proof requests, verification of valid/tampered/truncated inputs, recovery, new/new_with_params with bad arguments) run on an instance reached only through raw pointers with uninitialised outputs, in lockstep with a twin driven through RLN methods; success flags, output bytes (relations for randomised outputs incl. cross-verification of proofs), verdicts and the observation (root, leaf count, 28 leaves, metadata) of both instances are compared after every call, and a failed call must leave the observation unchanged. The workload is repeated on an ASan build so that every pointer/length handed out is actually dereferenced under the sanitizer.",
+        "note": "Trusted: catch_unwind on the Rust side defines 'the Rust API returns'; leak checking off (outputs are leaked by design).",
+    },
+    "C18": {
+        "level": "exploration",
+        "technique": "transcript equality across RAYON_NUM_THREADS in {1,2,4,16} (separate processes) + shared-instance monitor (2..64 threads, &RLN and FFI *const RLN, results vs sequential twins, observed call-kind overlaps) + fresh-process first-use races + recreate loop; ThreadSanitizer/AddressSanitizer builds in thorough",
+        "text": "Four processes with different rayon pool sizes run the same workload (24 batch updates on a persistent tree, witnesses, proof values, proofs with verdicts, a fixed corpus of valid/tampered/truncated messages) and must produce the same transcript hash; 85 read-only queries of every kind are answered sequentially and then issued at random by 2..64 threads from a start barrier on one shared instance (also through the FFI), every result compared with its sequential twin; fresh processes race the first use of the lazy globals; 60..600 create-write-flush-drop-create cycles on one storage location must open with the model's state (latency and lock retries reported). Thorough repeats the shared-instance and batch workloads under TSan (reports attributed to repository frames only; dependency-internal reports listed) and the FFI variant under ASan.",
+        "note": "Schedules are sampled. TSan does not model sled's stand-alone fences: reports whose stacks are entirely inside sled/crossbeam/rayon are suppressed but counted.",
+    },
     "C16": {
         "level": "fault_enumeration",
         "technique": "fault enumeration with a cfg(zerokit_verif) fail-after-N storage hook (every put/put_batch/flush of each short history fails once) + reopen monitor against the ideal model + SIGKILL crash points of a writer process + reopen while another process holds the storage lock",
